@@ -67,10 +67,20 @@ func (t *Ty) HasBoolSeq() bool {
 	return false
 }
 
+// type definitions are interned by structure: downstream code declares a type once and
+// reuses the same TypeDef instance wherever the type occurs
+var defCache = map[string]view.TypeDef{}
+
 func (t *Ty) Def() view.TypeDef {
 	if t.def != nil {
 		return t.def
 	}
+	key := t.Sexp()
+	if d, ok := defCache[key]; ok {
+		t.def = d
+		return d
+	}
+	defer func() { defCache[key] = t.def }()
 	switch t.Kind {
 	case "u":
 		t.def = view.UintMeta(t.N)
@@ -286,7 +296,11 @@ func (g *gen) ty1(depth int) *Ty {
 		k := 1 + g.r.Intn(9)
 		fs := make([]*Ty, k)
 		for i := range fs {
-			fs[i] = g.ty(depth - 1)
+			if i > 0 && g.r.Intn(3) == 0 {
+				fs[i] = fs[i-1] // runs of fields of one type
+			} else {
+				fs[i] = g.ty(depth - 1)
+			}
 		}
 		return &Ty{Kind: "cont", Fields: fs}
 	default:
